@@ -3,22 +3,28 @@ PROPS = ['PysphVerif.Props.C13']
 TRANSLATORS = []
 HARNESS = 'harness/c13.py'
 TRUSTED_BASE = [
-    'Lean 4.33 kernel + Mathlib (Matrix.det, mulVec, dotProduct); axioms propext, Classical.choice, Quot.sound only (audited per theorem each run)',
+    'Lean 4.33 kernel + Mathlib (Matrix, det, mulVec, dotProduct, diagonal, Equiv.Perm, Real.sqrt); axioms propext, Classical.choice, Quot.sound only (audited per theorem each run)',
     'hand-written model lean/PysphVerif/Model/GaussJordan.lean (flat row-major arrays, the index arithmetic of the source), tied to pysph/sph/wc/linalg.py by bit-exact differential execution at Float (harness/c13.py), both for the plain Python functions and for the same functions transpiled by compyle/Cython inside a probe Equation',
-    'exact ordered-field arithmetic stands in for IEEE doubles in the theorems; the literal 1e-12 (both occurrences) is the parameter tol > 0',
-    'the independent oracle of the harness (exact rational inverse, condition number, residual bound 64 n^2 eps cond |A| |x|)',
-    'the eigen-decomposition of linalg3.pyx (tred2/tql2) is neither modelled nor proved: its statement (V^T V = I, A V = V diag d, V diag d V^T = A) is monitored by test on generated symmetric matrices',
+    'hand-written model lean/PysphVerif/Model/Eigen3.lean (statement-by-statement transcription of eigen_decomposition, tred2, tql2, zero_matrix_case, the arithmetic part of get_eigenvalvec and transform_diag_inv of pysph/base/linalg3.pyx; while loops as fuel recursion, exhaustion reported as an error), tied to the compiled pysph.base.linalg3 by bit-exact comparison of V and d at Float (Float.sqrt and C sqrt are correctly rounded; only + - * / sqrt fabs and comparisons occur), for eigen_decomposition as a whole and for tred2 and tql2 separately (through a module that textually includes the tree\'s linalg3.pyx and is checked to reproduce the compiled module bit for bit on every case)',
+    'the body of hypot2 is a parameter of the model; the harness reads the source to choose between the pinned sqrt(x*x+y*y) and the repaired overflow-safe body (any other text is reported as a disagreement); the theorems hold for every hypot2 with hyp >= 0 and hyp^2 = x^2+y^2, which both bodies are proved to satisfy',
+    'the trigonometric get_eigenvalues (cos/acos/atan2/sin) is NOT modelled: in get_eigenvalvec it only decides the path (use_iter), and the model takes the eigenvalue triple returned by the real py_get_eigenvalues as an input; the closed-form eigenvector path (get_eigenvec_from_val, numpy fallback) is not modelled, only its eigenvalues are tied; neither is used by the solid-mechanics equations, which cimport eigen_decomposition',
+    'Cython\'s checked division (ZeroDivisionError inside a noexcept function = "unraisable", the function returns early) is not modelled: the model divides as IEEE does; the theorems prove every divisor non-zero in exact arithmetic; the harness ties "the code reported ZeroDivisionError" to "the model result is not finite"',
+    'exact ordered-field arithmetic stands in for IEEE doubles in the theorems; sqrt is abstract with 0 <= sqrt x and sqrt x * sqrt x = x for x >= 0 (satisfied by Real.sqrt: eig_hyps_satisfiable); the literal 1e-12 of gj_solve (both occurrences) is the parameter tol > 0, 2.0**-52.0 of tql2 the parameter eps >= 0, 1e8 of _nearly_diagonal the parameter big',
+    'the ghost field TQ.drops of the model (the sub-diagonal entries tql2 replaces by 0.0, with V at that moment) is not in the C code; it is what the decomposition theorem is exact up to; its values are replayed against the real output by the harness',
+    'the independent oracles of the harness (exact rational inverse, condition number, residual bound 64 n^2 eps cond |A| |x|; numpy evaluation of V^T V - I, A V - V diag d, V diag d V^T - A on what the real code returned)',
 ]
 ASSUMPTIONS = [
     'arrays are large enough: n*(n+nb) <= len(m), n*nb <= len(result) (true at every call site)',
     'no NaN/inf among the inputs',
-    'CPU paths (CPython, and compyle -> Cython -> g++ without -ffast-math)',
+    'CPU paths (CPython, and compyle -> Cython -> g++ without -ffast-math; no FMA contraction in this build)',
     '"non-singular" in the return-code demand of the oracle means 1/|A^-1|_inf >= 1e-9 and cond_inf <= 1e8 (away from the absolute 1e-12 pivot guard); the theorems state the exact-arithmetic version (det A != 0 and no reduced column entirely below tol)',
+    'eigen-decomposition: symmetric input (the code reads the lower triangle only); entries within 1e-290..1e290 of each other and of 1 (no denormals, sum |a_ij| does not overflow); the oracle tolerance is 1e-13 relative to max|a_ij| (orthonormality absolute)',
+    'eigen-decomposition theorems are partial correctness: they say what holds IF the QL iteration returns (EigReturnsStatement is stated, not proved); the harness has never seen more than 7 sweeps per eigenvalue',
 ]
 READY = True
 DESIGN_REF = '6/C13'
-TECHNIQUE = ('Lean 4 proof over a hand-written model + bit-exact correspondence check '
-             '(Gauss-Jordan and helpers); eigen-solver monitored by test')
+TECHNIQUE = ('Lean 4 proof over hand-written models + bit-exact correspondence check '
+             '(Gauss-Jordan and helpers; EISPACK tred2/tql2 eigen-decomposition), theorems replayed on the real outputs')
 LEVEL_TEXT = ("Lean 4 theorems for every n, nb, every sufficiently large flat array and every linearly ordered "
               "field about a hand-written model that transcribes gj_solve (repaired: partial pivoting with a real "
               "row exchange), identity, dot, mat_mult, mat_vec_mult and augmented_matrix with their flat index "
@@ -27,14 +33,41 @@ LEVEL_TEXT = ("Lean 4 theorems for every n, nb, every sufficiently large flat ar
               "or a column of the row-reduced matrix is entirely below tol), gj_pivot_is_column_max, "
               "gj_forward_triangular, row_ops_preserve_solutions, helpers = Mathlib's 1, *, mulVec, dotProduct, "
               "block row; orig_prepass_is_identity and orig_counterexample pin down defect F5 of the unrepaired "
-              "code. The model is tied to the code on every run by bit-exact differential execution at Float "
-              "against the scratch build (Python and transpiled paths), and the property's own predicate "
-              "(exact rational oracle) is evaluated on the implementation to produce replays.")
-LEVEL_NOTE = ("Partial: the 3x3 symmetric eigen-decomposition (linalg3.pyx, EISPACK tred2/tql2) is an iterative "
-              "floating-point algorithm and is only MONITORED by test (orthonormality, A V = V diag d, "
-              "reconstruction; 2000 matrices quick / 40000 thorough over 11 styles and scales 1e-8..1e8), not "
-              "proved. The 'residual bounded by the conditioning' clause is a floating-point statement: proved "
-              "only in its exact-arithmetic form (residual 0), checked numerically by the oracle. Trusted: Lean "
-              "kernel + Mathlib, the hand-written model (checked by the correspondence, ~3800 cases quick), "
-              "exact-field arithmetic in place of IEEE doubles, compyle/Cython/g++ for the transpiled path.")
+              "code. "
+              "Eigen-decomposition (linalg3.pyx): 15 theorems over every linearly ordered field with abstract sqrt/hypot2, "
+              "for every symmetric 3x3 input of any magnitude, every branch combination and EVERY number of QL sweeps, "
+              "about a model that transcribes eigen_decomposition = scaling + tred2 + tql2 + sort + zero_matrix_case: "
+              "tred2_orthogonal_tridiagonal (V orthogonal, V T V^T = A, all four branch combinations, h > 0 and the "
+              "sign choice proved), tql2_rotation_preserves_orthonormal and tql2_preserves_orthonormal (any fuel; the "
+              "rotations are never degenerate because e[l..m-1] stay non-zero), tql2_sweep_is_similarity (the "
+              "implicit-shift formulas incl. p = -s*s2*c3*el1*e[l]/dl1 are an exact orthogonal similarity of the "
+              "shifted tridiagonal matrix), tql2_decomposition and eig_decomposition (if the routine returns then "
+              "V^T V = I, d ascending and A = V diag(d) V^T + sum|a_ij| * sum_k W_k offM(j_k, x_k) W_k^T over the "
+              "sub-diagonal entries x_k it replaced by 0.0), eig_decomposition_exact (A V = V diag d when the dropped "
+              "entries are 0), eig_sort_permutes_and_sorts / eig_sort_preserves, eig_diag_fast_path, "
+              "eig_zero_matrix_case (taken exactly for A = 0), eig_get_eigenvalvec_dispatch, eig_scaling "
+              "(eigen_decomposition(c A) = (V, c d) for c > 0, same path), eig_hyps_satisfiable (Real.sqrt, both "
+              "hypot2 bodies). "
+              "The models are tied to the code on every run by bit-exact differential execution at Float "
+              "against the scratch build (Python and transpiled paths; eigen_decomposition, tred2 alone, tql2 alone, "
+              "get_eigenvalvec, transform_diag_inv), the theorems tred2_orthogonal_tridiagonal, tql2_decomposition and "
+              "eig_scaling are replayed on the outputs of the real code, and the property's own predicate "
+              "(exact rational oracle; orthonormality and residuals of the real eigen output) is evaluated on the "
+              "implementation to produce replays.")
+LEVEL_NOTE = ("Partial: (1) the eigen theorems are partial correctness - that the QL iteration stops "
+              "(EigReturnsStatement) and that the dropped entries are below eps*tst1 is not proved (the model reports "
+              "fuel exhaustion as an error; the harness compares the dropped values with the real residual); "
+              "(2) rounding: every theorem is about exact field arithmetic; 'V orthonormal and A V = V diag d up to "
+              "rounding' for doubles is checked by the oracle on 4000 (quick) / 60000 (thorough) matrices over 24 "
+              "styles (random, diagonal, rank-deficient, repeated eigenvalues, hollow, sign-cancelling off-diagonals, "
+              "tridiagonal, zero rows, 2x2 blocks, graded, scaled 1e-290..1e290), not proved; (3) get_eigenvalvec: "
+              "only the dispatch and the diagonal fast path are modelled/proved, the trigonometric eigenvalues are an "
+              "input and the closed-form eigenvector path is monitored only (it returns duplicated, non-orthogonal "
+              "vectors for ~18% of the generated matrices; it is not used by the equations); (4) the 'residual "
+              "bounded by the conditioning' clause of gj_solve is proved only in its exact-arithmetic form (residual 0), "
+              "checked numerically by the oracle. Defect found by the tie and fixed in the tree (3ee427a): hypot2 = "
+              "sqrt(x*x+y*y) overflowed/underflowed in tql2 for graded matrices (NaN output, ZeroDivisionError); key "
+              "C13:eig:graded. Trusted: Lean kernel + Mathlib, the hand-written models (checked by the correspondence, "
+              "~3800 gj + ~4000 eigen cases quick), exact-field arithmetic in place of IEEE doubles, "
+              "compyle/Cython/g++ for the transpiled path.")
 TIMEOUT = {'quick': 1200, 'thorough': 4 * 3600}
